@@ -504,6 +504,8 @@ class spawn(SpawnBase):
             # Some platforms, such as Irix, will claim that their
             # processes are alive; timeout on the select; and
             # then finally admit that they are not alive.
+            if select(0):
+                return super(spawn, self).read_nonblocking(size)
             self.flag_eof = True
             raise EOF('End of File (EOF). Very slow platform.')
         else:
